@@ -216,6 +216,10 @@ def edge_trims(data):
         yield 'extend+%dsp' % k, data + b' ' * k
 
 
+def _is_text(c):
+    return c.get('field_python_type') in (None, '', 'string')
+
+
 def bitmap_for(bits, hex_bitmap):
     bm = bytearray(16)
     bm[0] |= 0x80
@@ -231,9 +235,9 @@ def constructed_overlaps(cfg, enc, hex_bitmap, mti='1240'):
     and every negative value -k the prefix can spell:  bytes(p) | prefix(-k) | (width(f) - k) filler bytes.
     """
     bits = sorted(int(b) for b in cfg if 2 <= int(b) <= 127)
-    var = [b for b in bits if cfg[str(b)]['field_type'] in ('LLVAR', 'LLLVAR') and not cfg[str(b)].get('field_python_type')
+    var = [b for b in bits if cfg[str(b)]['field_type'] in ('LLVAR', 'LLLVAR') and _is_text(cfg[str(b)])
            and cfg[str(b)].get('field_processor') in (None, 'DE43')]
-    fixed = [b for b in bits if cfg[str(b)]['field_type'] == 'FIXED' and not cfg[str(b)].get('field_python_type')
+    fixed = [b for b in bits if cfg[str(b)]['field_type'] == 'FIXED' and _is_text(cfg[str(b)])
              and not cfg[str(b)].get('field_processor')]
     for e in var:
         w = 2 if cfg[str(e)]['field_type'] == 'LLVAR' else 3
